@@ -210,7 +210,7 @@ func runSchedule(spec RunSpec, pool string, first bool) (*RunResult, int) {
 			case "lookup":
 				var sb strings.Builder
 				for _, name := range ts.Args {
-					call := simsched.Now()
+					call := simsched.Tick()
 					simsched.Yield("lookup")
 					if strings.HasPrefix(name, "read:") {
 						// the installed font program, as every user-font embedding reads it
@@ -219,7 +219,7 @@ func runSchedule(spec RunSpec, pool string, first bool) (*RunResult, int) {
 						if e == nil {
 							res = progDigest(bb)
 						}
-						hists[i] = append(hists[i], HistEvent{Task: i, Op: "read", Arg: strings.TrimPrefix(name, "read:"), Result: res, Call: call, Ret: simsched.Now()})
+						hists[i] = append(hists[i], HistEvent{Task: i, Op: "read", Arg: strings.TrimPrefix(name, "read:"), Result: res, Call: call, Ret: simsched.Tick()})
 						fmt.Fprintf(&sb, "%s=%s ", name, res)
 						continue
 					}
@@ -230,7 +230,7 @@ func runSchedule(spec RunSpec, pool string, first bool) (*RunResult, int) {
 						if e != nil {
 							res = "ERR:" + e.Error()
 						}
-						hists[i] = append(hists[i], HistEvent{Task: i, Op: "names", Result: res, Call: call, Ret: simsched.Now()})
+						hists[i] = append(hists[i], HistEvent{Task: i, Op: "names", Result: res, Call: call, Ret: simsched.Tick()})
 						fmt.Fprintf(&sb, "names=%s ", res)
 						continue
 					}
@@ -239,7 +239,7 @@ func runSchedule(spec RunSpec, pool string, first bool) (*RunResult, int) {
 					if e != nil {
 						res = "ERR:" + e.Error()
 					}
-					hists[i] = append(hists[i], HistEvent{Task: i, Op: "isuser", Arg: name, Result: res, Call: call, Ret: simsched.Now()})
+					hists[i] = append(hists[i], HistEvent{Task: i, Op: "isuser", Arg: name, Result: res, Call: call, Ret: simsched.Tick()})
 					fmt.Fprintf(&sb, "%s=%s ", name, res)
 					if ok {
 						ttf, found, e := font.UserFont(name)
@@ -265,10 +265,10 @@ func runSchedule(spec RunSpec, pool string, first bool) (*RunResult, int) {
 					}
 					for _, nm := range sortedNames(onDisk) {
 						if _, keep := want[nm]; !keep {
-							c0 := simsched.Now()
+							c0 := simsched.Tick()
 							os.Remove(filepath.Join(fontDir, nm))
 							delete(onDisk, nm)
-							hists[i] = append(hists[i], HistEvent{Task: i, Op: "disk", Arg: strings.TrimSuffix(nm, ".gob") + "=absent", Result: "ok", Call: c0, Ret: simsched.Now()})
+							hists[i] = append(hists[i], HistEvent{Task: i, Op: "disk", Arg: strings.TrimSuffix(nm, ".gob") + "=absent", Result: "ok", Call: c0, Ret: simsched.Tick()})
 						}
 					}
 					for _, nm := range sortedNames(want) {
@@ -276,19 +276,19 @@ func runSchedule(spec RunSpec, pool string, first bool) (*RunResult, int) {
 							b, _ := os.ReadFile(poolFile(nm, want[nm]))
 							// staged under a name the font loader does not take for a font, published by rename
 							os.WriteFile(filepath.Join(fontDir, ".stage-"+nm+".tmp"), b, 0644)
-							c0 := simsched.Now()
+							c0 := simsched.Tick()
 							os.Rename(filepath.Join(fontDir, ".stage-"+nm+".tmp"), filepath.Join(fontDir, nm))
 							onDisk[nm] = want[nm]
-							hists[i] = append(hists[i], HistEvent{Task: i, Op: "disk", Arg: strings.TrimSuffix(nm, ".gob") + "=" + want[nm], Result: "ok", Call: c0, Ret: simsched.Now()})
+							hists[i] = append(hists[i], HistEvent{Task: i, Op: "disk", Arg: strings.TrimSuffix(nm, ".gob") + "=" + want[nm], Result: "ok", Call: c0, Ret: simsched.Tick()})
 						}
 					}
-					call := simsched.Now()
+					call := simsched.Tick()
 					e := font.ReloadUserFonts()
 					res := "ok"
 					if e != nil {
 						res = "ERR:" + e.Error()
 					}
-					hists[i] = append(hists[i], HistEvent{Task: i, Op: "reload", Arg: set, Result: res, Call: call, Ret: simsched.Now()})
+					hists[i] = append(hists[i], HistEvent{Task: i, Op: "reload", Arg: set, Result: res, Call: call, Ret: simsched.Tick()})
 				}
 				results[i] = "installed " + strings.Join(ts.Sets, ">")
 			default:
@@ -319,7 +319,7 @@ func runSchedule(spec RunSpec, pool string, first bool) (*RunResult, int) {
 	if s.Deadlock == "" {
 		// with everything quiet: what does every font name read as now? (a stale font program that
 		// outlives the reload which replaced it shows here at the latest)
-		end := s.Steps() + 1
+		end := 1 << 40 // after everything
 		for _, c := range []byte{'A', 'B', 'C', 'D', stableFont} {
 			bb, e := font.Read(fontName(c))
 			r := "ERR"
@@ -426,7 +426,43 @@ func (c40) Units(tier string, seed int64) ([]core.Unit, error) {
 	return units, nil
 }
 
+// genFocused draws a small schedule about the font programs: one or two readers, an installer that
+// flips the revision of the fonts they read once or twice, PCT with few change points among the
+// first few scheduling points. (Small, deep and biased: a reader held back across one complete
+// replace-and-reload is the shape that matters, and in a large uniform schedule it is rare.)
+func genFocused(rng *rand.Rand) RunSpec {
+	spec := RunSpec{Seed: rng.Uint64(), Preload: true}
+	x := []byte{'A', 'B'}[rng.IntN(2)] // the font whose revision is flipped and read
+	other := byte('A' + 'B' - x)
+	readers := 1 + rng.IntN(2)
+	for i := 0; i < readers; i++ {
+		ts := TaskSpec{Kind: "lookup", Doc: corpus[0]}
+		for j := 0; j < 2+rng.IntN(3); j++ {
+			ts.Args = append(ts.Args, []string{"read:" + fontName(x), "read:" + fontName(x), "read:" + fontName(x), "read:" + fontName(other), "*", fontName(x)}[rng.IntN(6)])
+		}
+		spec.Tasks = append(spec.Tasks, ts)
+	}
+	lo := string(x - 'A' + 'a')
+	up := string(x)
+	o := string(other)
+	inst := TaskSpec{Kind: "installer"}
+	flips := [][]string{{lo + o}, {lo}, {lo + o, up + o}, {o, lo + o}, {lo + o + "C"}, {lo + strings.ToLower(o)}}
+	inst.Sets = flips[rng.IntN(len(flips))]
+	spec.Tasks = append(spec.Tasks, inst)
+	rng.Shuffle(len(spec.Tasks), func(i, j int) { spec.Tasks[i], spec.Tasks[j] = spec.Tasks[j], spec.Tasks[i] })
+	spec.SwitchPermille = 100
+	spec.PCTDepth = 2 + rng.IntN(2)
+	spec.PCTHorizon = []int{16, 16, 64}[rng.IntN(3)]
+	for i := 0; i < 512; i++ {
+		spec.Decisions = append(spec.Decisions, rng.Uint32())
+	}
+	return spec
+}
+
 func genSpec(rng *rand.Rand) RunSpec {
+	if rng.IntN(3) == 0 {
+		return genFocused(rng)
+	}
 	spec := RunSpec{Seed: rng.Uint64()}
 	nt := 2 + rng.IntN(5)
 	switch rng.IntN(10) {
@@ -943,6 +979,9 @@ func (c40) Replay(payload json.RawMessage) ([]core.Violation, error) {
 			break
 		}
 		fmt.Printf("  step %d: task %d %s -> next %d\n", st.N, st.Task, st.Op, st.Next)
+	}
+	for _, e := range conc[0].History {
+		fmt.Printf("  history: task %d [%d,%d] %s(%s) -> %s\n", e.Task, e.Call, e.Ret, e.Op, e.Arg, e.Result)
 	}
 	return judge(spec, solo[0], conc[0], cerr[0]), nil
 }
